@@ -259,6 +259,39 @@ Theorem missed_heartbeats c rest :
   fst (heartbeat_timers ((HbRx, true) :: rest) c) = OErr EMissedHeartbeats.
 Proof. reflexivity. Qed.
 
+(* ... and nothing that is due before it in the same pass can mask it: every entry the timer
+   yields is handled until an expired rx entry is found - stale rx firings, tx firings with or
+   without output pending (only the out-buffer can differ afterwards) *)
+Theorem missed_heartbeats_not_masked pre rest : forall c,
+  (forall k b, In (k, b) pre -> (k, b) <> (HbRx, true)) ->
+  fst (heartbeat_timers (pre ++ (HbRx, true) :: rest) c) = OErr EMissedHeartbeats.
+Proof.
+  induction pre as [|[k b] pre IH]; intros c H; cbn [app].
+  - reflexivity.
+  - assert (Hrest : forall k' b', In (k', b') pre -> (k', b') <> (HbRx, true))
+      by (intros; apply H; right; assumption).
+    destruct k, b; cbn [heartbeat_timers].
+    + exfalso. apply (H HbRx true); [left; reflexivity|reflexivity].
+    + apply IH; exact Hrest.
+    + apply IH; exact Hrest.
+    + apply IH; exact Hrest.
+Qed.
+
+(* a pass without an expired rx entry never fails *)
+Theorem heartbeat_pass_ok fired : forall c,
+  (forall k b, In (k, b) fired -> (k, b) <> (HbRx, true)) ->
+  fst (heartbeat_timers fired c) = OOk.
+Proof.
+  induction fired as [|[k b] fired IH]; intros c H; [reflexivity|].
+  assert (Hrest : forall k' b', In (k', b') fired -> (k', b') <> (HbRx, true))
+    by (intros; apply H; right; assumption).
+  destruct k, b; cbn [heartbeat_timers].
+  - exfalso. apply (H HbRx true); [left; reflexivity|reflexivity].
+  - apply IH; exact Hrest.
+  - apply IH; exact Hrest.
+  - apply IH; exact Hrest.
+Qed.
+
 (* dropping the thread's state disconnects every queue it held a sender of *)
 Definition tx_gone (q : N) (m : qs) : Prop :=
   forall qu, alookup q m = Some qu -> q_tx qu = false.
